@@ -31,6 +31,8 @@ func main() {
 		seq(os.Args[2:])
 	case "replay":
 		replay(os.Args[2:])
+	case "conc":
+		conc(os.Args[2:])
 	default:
 		fmt.Fprintln(os.Stderr, "unknown sub-command", os.Args[1])
 		os.Exit(2)
